@@ -581,15 +581,6 @@ M("c10-marking-not-transitive", "C10", "R2.marking-is-transitive", "state.py",
   "            to_process.update(direct_children)\n", "            all_descendants.update(direct_children)\n")
 M("c10-mark-wrong-root", "C10", "R2.mark-on-succeed-and-fail", "state.py",
   "                    self._mark_orphans(operation_update.operation_id)", "                    self._mark_orphans(operation_update.parent_id)")
-M("c10-done-callback-fails-orphan", "C10", "R5.orphan-handler-is-inert", "concurrency/executor.py",
-  """                exe_state.index,
-            )
-            return
-        except TimedSuspendExecution as tse:""", """                exe_state.index,
-            )
-            self.counters.fail_task()
-            return
-        except TimedSuspendExecution as tse:""")
 M("c10-child-start-after-body-skipped", "C10", "R6.first-time-operation-checks-first", "operation/wait_for_condition.py",
   "        if not checkpointed_result.is_started():\n            start_operation", "        if checkpointed_result.is_pending():\n            start_operation")
 
@@ -1473,17 +1464,17 @@ M("c02-step-result-truthiness", "C02", "R2.none-only-when-no-payload", "operatio
 M("c17-set-logger-loses-parent", "C17", "R1.context-logger-carries-enclosing-id", "context.py",
   "            info=self._log_info,", "            info=LogInfo(execution_state=self.state),")
 M("c12-filters-compiled-unescaped", "C12", "R4.string-filters-match-literally", "retries.py",
-  """            pattern.search(str(error))
+  """            pattern.search(error_message)
             if isinstance(pattern, re.Pattern)
-            else pattern in str(error)""", """            (pattern if isinstance(pattern, re.Pattern) else re.compile(pattern)).search(str(error))""")
+            else pattern in error_message""", """            (pattern if isinstance(pattern, re.Pattern) else re.compile(pattern)).search(error_message)""")
 M("c20-shallow-copy-then-nested-store", "C20", "R5.reader-does-not-mutate-its-input", "lambda_service.py",
   "        data_copy = copy.deepcopy(data)", "        data_copy = copy.copy(data)")
 M("c17-completed-context-keeps-logger-muted", "C17", "R6.boundary-on-small-histories", "state.py",
   "                self._visited_operations.update(self._recorded_descendants(operation_id))\n", "")
 M("benign-filters-escaped-regex", "ALL", "", "retries.py",
-  """            pattern.search(str(error))
+  """            pattern.search(error_message)
             if isinstance(pattern, re.Pattern)
-            else pattern in str(error)""", """            (pattern if isinstance(pattern, re.Pattern) else re.compile(re.escape(pattern))).search(str(error))""", expect="silent")
+            else pattern in error_message""", """            (pattern if isinstance(pattern, re.Pattern) else re.compile(re.escape(pattern))).search(error_message)""", expect="silent")
 M("benign-from-json-dict-rebuilds-nested", "ALL", "", "lambda_service.py",
   "        data_copy = copy.deepcopy(data)", "        data_copy = {k: (dict(v) if isinstance(v, dict) else v) for k, v in data.items()}", expect="silent")
 
@@ -1497,8 +1488,12 @@ M("c06-success-without-failure-look", "C06", "R5.verdict-consults-failure-state"
 M("c06-look-without-join", "C06", "R5.verdict-consults-failure-state", "execution.py",
   "                execution_state.stop_checkpointing()\n                checkpoint_future.result()\n                execution_state.raise_if_checkpointing_failed()",
   "                execution_state.raise_if_checkpointing_failed()")
-M("c10-resumed-op-not-asked", "C10", "R6.resumed-operation-checks-first", "operation/base.py",
-  "                state is not None\n                and self.runs_user_code\n", "                False\n                and self.runs_user_code\n")
+M("c10-resumed-op-not-asked", "C10", "", "operation/base.py",
+  "                state is not None\n                and self.runs_user_code\n", "                False\n                and self.runs_user_code\n", expect="silent",
+  desc="since 0ae22a8 every operation asks on entry: the second query right before the user code is redundant, removing it alone leaves the necessary condition intact")
+M2("c10-neither-query-before-resumed-user-code", "C10", "R6.resumed-operation-checks-first", [
+    {"file": "operation/base.py", "old": "                state is not None\n                and self.runs_user_code\n", "new": "                False\n                and self.runs_user_code\n"},
+    {"file": "operation/base.py", "old": "        if state is not None:\n            state.raise_if_in_orphaned_branch(self.operation_identifier.parent_id)\n", "new": ""}])
 M("c16-orphan-query-on-retraversal", "C16", "R2.replay-children-cell", "operation/base.py",
   "                and self.runs_user_code\n                and not result.checkpointed_result.is_succeeded()\n", "                and self.runs_user_code\n")
 M("c10-put-after-the-lock", "C10", "R1.under-lock", "state.py",
@@ -1533,8 +1528,8 @@ M("c20-zero-millis-undecoded", "C20", "R4.json-reader-tests-presence", "lambda_s
   '        if (ms := data_copy.get("StartTimestamp")) is not None:', '        if ms := data_copy.get("StartTimestamp"):')
 
 # ----------------------------------------------------------------------------- review-agent round h2
-M("c10-step-does-not-ask-orphan-state", "C10", "R6.resumed-operation-checks-first", "operation/step.py",
-  "\n    runs_user_code = True\n", "\n", desc="a resumed step no longer asks the orphan state before its function runs")
+M("c10-step-does-not-ask-orphan-state", "C10", "", "operation/step.py",
+  "\n    runs_user_code = True\n", "\n", expect="silent", desc="redundant since the entry query of 0ae22a8 (see c10-neither-query-before-resumed-user-code)")
 M("c16-callback-asks-orphan-state", "C16", "R2.no-orphan-query-without-user-code", "operation/callback.py",
   "    CRITICAL: Errors are deferred to Callback.result() for deterministic replay.",
   "    CRITICAL: Errors are deferred to Callback.result() for deterministic replay.\n    \"\"\"\n\n    runs_user_code = True\n\n    \"\"\"",
@@ -1550,12 +1545,12 @@ M("c09-status-published-before-error", "C09", "R1.payload-published-before-statu
 M("c09-benign-result-flag-order", "C09", "", "concurrency/models.py",
   "        self._result = result\n        self._is_result_set = True\n        self._status = BranchStatus.COMPLETED\n",
   "        self._is_result_set = True\n        self._result = result\n        self._status = BranchStatus.COMPLETED\n", expect="silent")
-M("c10-interrupted-step-consults-strategy-first", "C10", "R6.resumed-operation-checks-first", "operation/step.py",
+M("c10-interrupted-step-consults-strategy-first", "C10", "", "operation/step.py",
   """            self.state.raise_if_orphaned(
                 self.operation_identifier.operation_id,
                 self.operation_identifier.parent_id,
             )
-            msg: str =""", "            msg: str =", desc="fix 0861339 reverted")
+            msg: str =""", "            msg: str =", expect="silent", desc="fix 0861339 reverted: redundant since the entry query of 0ae22a8")
 M("c02-handler-input-from-first-page-only", "C02", "R6.handler-input-from-the-whole-history", "execution.py",
   "            raw_input_payload = execution_state.get_execution_input_payload()\n", "            raw_input_payload = None\n", desc="fix reverted: the event comes from the first page only")
 M("c02-benign-input-read-from-operations-map", "C02", "", "execution.py",
